@@ -34,18 +34,22 @@ def confirm(name, wt):
 
 
 def run_checks(name, checks):
+    """apply the change to a scratch worktree of /repo (never to /repo itself) and run the checks against it"""
     d = os.path.join(SD, name)
-    rc, out = sh("git -C /repo status --porcelain")
-    if out.strip():
-        raise SystemExit("repo dirty")
-    rc, out = sh("git -C /repo apply %s/patch.diff" % d)
+    wt = "/tmp/seedwt_%s" % name
+    sh("git -C /repo worktree remove --force %s" % wt)
+    rc, out = sh("git -C /repo worktree add -q %s HEAD" % wt)
     if rc:
-        raise SystemExit("patch does not apply to /repo: " + out)
+        raise SystemExit("cannot create worktree: " + out)
     res = {}
     try:
+        rc, out = sh("git -C %s apply %s/patch.diff" % (wt, d))
+        if rc:
+            raise SystemExit("patch does not apply: " + out)
+        env = dict(os.environ, VERIF_REPO=wt, VERIF_SCRATCH="seeded_" + name)
         for c in checks:
             t = time.time()
-            rc, out = sh("./check %s" % c, cwd=V, timeout=3000)
+            rc, out = sh("./check %s" % c, cwd=V, env=env, timeout=3000)
             viol = [l for l in out.splitlines() if l.startswith("VIOLATION")]
             clause = ""
             if viol:
@@ -56,7 +60,8 @@ def run_checks(name, checks):
             if rc == 2:
                 res[c]["machinery"] = out[-400:]
     finally:
-        sh("git -C /repo checkout -- .")
+        sh("git -C /repo worktree remove --force %s" % wt)
+        sh("rm -rf %s" % os.path.join(V, "out", "seeded_" + name))
     return res
 
 
@@ -88,7 +93,7 @@ def main():
         res = run_checks(name, checks)
         meta.setdefault("checks_run", {}).update(res)
         meta["caught_by"] = sorted(c for c, r in meta["checks_run"].items() if r["rc"] == 1)
-        meta["what_was_run"] = "git -C /repo apply patch.diff ; ./check <id> (quick tier) ; git -C /repo checkout -- ."
+        meta["what_was_run"] = "patch applied to a scratch worktree of /repo (git worktree add; git apply), checks run with VERIF_REPO=<worktree> ./check <id> (quick tier), worktree removed"
         json.dump(meta, open(mp, "w"), indent=1)
         print(name, {c: (r["rc"], r["first_clause"]) for c, r in res.items()})
     elif cmd == "results":
